@@ -122,6 +122,10 @@ func genErrPlan(t *core.Tape, notes map[string]int, bin map[string][][]byte) *Er
 		e.Msg = "backend call failed: " + map[int]string{1: "context canceled", 2: "context deadline exceeded"}[e.WrapCtx]
 		notes["err_wraps_context_error"]++
 	}
+	if !e.Plain && t.Bool(1, 6, "err.wrapped") {
+		e.Wrapped = true
+		notes["err_wrapped_coded"]++
+	}
 	if !e.Plain {
 		nd := t.Pick([]int{3, 2, 1, 1}, "err.ndetails")
 		for i := 0; i < nd; i++ {
@@ -263,6 +267,22 @@ func genRich(t *core.Tape, tier, prop string) *Scenario {
 			sc.Calls = append(sc.Calls, &q)
 		}
 		sc.Notes["sentinel_error_reused"]++
+	} else if prop == "C02" && p.HErr != nil && !p.InterceptorErr && t.Bool(1, 3, "error.history") {
+		// a history of failing calls through the same handler, each with an
+		// error of its own: nothing of one error may show up in the next
+		for i := 1 + t.Choose(2, "history.calls"); i > 0; i-- {
+			q := *p
+			q.ID = callID(len(sc.Calls))
+			q.bin = map[string][][]byte{}
+			for k, v := range p.bin {
+				if !strings.HasPrefix(k, "X-M") {
+					q.bin[k] = v
+				}
+			}
+			q.HErr = genErrPlan(t, sc.Notes, q.bin)
+			sc.Calls = append(sc.Calls, &q)
+		}
+		sc.Notes["error_history"]++
 	}
 	return sc
 }
@@ -443,6 +463,9 @@ func checkC02(w *World, st core.Status, r *RunResult) []Violation {
 			if why, ok := containsValues(ce.Meta(), p.HErr.Meta); !ok {
 				add("metadata-missing", why)
 			}
+		} else if n := len(ce.Details()); n != 0 {
+			// a plain Go error has no details
+			add("details-on-plain-error", fmt.Sprintf("the handler returned a plain error, the client's error carries %d details", n))
 		}
 		// messages sent before the error are delivered first
 		if p.Kind == KServer || p.Kind == KBidi {
